@@ -810,18 +810,19 @@ class BaseWorkflow(object, metaclass=abc.ABCMeta):
                         task.allocated_facility_list = []
 
     def __set_est_eft_data(self, time: int):
-        input_task_set = set()
+        # ordered collections: the result must not depend on set (hash) order
+        input_task_set = []
 
         # 1. Set the earliest finish time of head tasks.
         for task in self.task_list:
             task.est = time
             if len(task.input_task_list) == 0:
                 task.eft = time + task.remaining_work_amount
-                input_task_set.add(task)
+                input_task_set.append(task)
 
         # 2. Calculate PERT information of all tasks
         while len(input_task_set) > 0:
-            next_task_set = set()
+            next_task_set = []
             for input_task in input_task_set:
                 for next_task, dependency in input_task.output_task_list:
                     pre_est = next_task.est
@@ -849,13 +850,14 @@ class BaseWorkflow(object, metaclass=abc.ABCMeta):
                     if est >= pre_est:
                         next_task.est = est
                         next_task.eft = eft
-                    next_task_set.add(next_task)
+                    if not any(next_task is t for t in next_task_set):
+                        next_task_set.append(next_task)
 
             input_task_set = next_task_set
 
     def __set_lst_lft_criticalpath_data(self, time: int):
         # 1. Extract the list of tail tasks.
-        output_task_set = set(
+        output_task_set = list(
             filter(lambda task: len(task.output_task_list) == 0, self.task_list)
         )
 
@@ -867,7 +869,7 @@ class BaseWorkflow(object, metaclass=abc.ABCMeta):
 
         # 3. Calculate PERT information of all tasks
         while len(output_task_set) > 0:
-            prev_task_set = set()
+            prev_task_set = []
             for output_task in output_task_set:
                 for prev_task, dependency in output_task.input_task_list:
                     pre_lft = prev_task.lft
@@ -895,7 +897,8 @@ class BaseWorkflow(object, metaclass=abc.ABCMeta):
                     if pre_lft < 0 or pre_lft >= lft:
                         prev_task.lst = lst
                         prev_task.lft = lft
-                    prev_task_set.add(prev_task)
+                    if not any(prev_task is t for t in prev_task_set):
+                        prev_task_set.append(prev_task)
 
             output_task_set = prev_task_set
 
